@@ -298,7 +298,7 @@ def h_copyback(stage):
         new, old = [], []
         for k in range(3):
             a, b = R(), R()
-            a.uuid, a.flags = 'new%d' % k, 0
+            a.uuid, a.flags = 'new%d' % k, (0, 64, 64 | 4 | 1)[k]      # fitted components start from the input flags, which may already hold PRIORIZED / FIXED2PSF
             for nm in ('err_ra', 'err_dec', 'err_a', 'err_b', 'err_pa'):
                 setattr(a, nm, ('fit', nm, k))
                 setattr(b, nm, ('cat', nm, k))
@@ -324,13 +324,16 @@ def h_copyback(stage):
         for k in range(3):
             n = new[k]
             cl.append(z3.BoolVal(n.uuid == 'cat%d' % k and bool(n.flags & flags.PRIORIZED)))
+            init = (0, 64, 64 | 4 | 1)[k]
+            cl.append(z3.BoolVal(isinstance(n.flags, int) and (n.flags & ~127) == 0 and (n.flags & init) == init and (n.flags & ~(init | flags.PRIORIZED | flags.FIXED2PSF)) == 0))
+            cl.append(z3.If(stv < 2, z3.BoolVal(bool(n.flags & flags.FIXED2PSF)), z3.BoolVal((n.flags & flags.FIXED2PSF) == (init & flags.FIXED2PSF))))
             pos_copied = n.err_ra == ('cat', 'err_ra', k) and n.err_dec == ('cat', 'err_dec', k)
             pos_kept = n.err_ra == ('fit', 'err_ra', k) and n.err_dec == ('fit', 'err_dec', k)
             shp_copied = all(getattr(n, q) == ('cat', q, k) for q in ('err_a', 'err_b', 'err_pa'))
             shp_kept = all(getattr(n, q) == ('fit', q, k) for q in ('err_a', 'err_b', 'err_pa'))
             cl.append(z3.If(stv < 2, z3.BoolVal(pos_copied), z3.BoolVal(pos_kept)))
             cl.append(z3.If(stv < 3, z3.BoolVal(shp_copied), z3.BoolVal(shp_kept)))
-        c.oblige('copyback[stage %s]:uuid + PRIORIZED + input uncertainties of the parameters the stage did not free, paired by index' % stage, z3.And(cl))
+        c.oblige('copyback[stage %s]:uuid, flags = input flags | PRIORIZED (| FIXED2PSF below stage 2) within the documented bits, input uncertainties of the parameters the stage did not free, paired by index' % stage, z3.And(cl))
         return dict()
     return h
 
@@ -711,6 +714,8 @@ def oracle(stages=(1, 2, 3), nsrc=9, nopsf=False, ratio=None, small=False, beam=
             cat = copy.deepcopy(blind)
             for k, s in enumerate(cat):
                 s.uuid = 'uuid-%d' % k
+                if k % 2:
+                    s.flags |= flags.PRIORIZED          # a catalogue that itself came from a priorized run
                 if small and k % 2 == 0:
                     # a catalogued minor axis a little smaller than the psf (as noise produces): the shape must come back unchanged
                     s.b = s.psf_b * 0.93
@@ -726,8 +731,8 @@ def oracle(stages=(1, 2, 3), nsrc=9, nopsf=False, ratio=None, small=False, beam=
                 return True, ('no-psf-columns-drops-sources' if nopsf else 'source-count'), 'stage %d%s: %d components returned for %d catalogue sources' % (st, ' (no psf columns, ratio=%s)' % ratio if nopsf else '', len(pr), len(cat))
             for s in cat:
                 p = by[s.uuid]
-                if not (p.flags & flags.PRIORIZED):
-                    return True, 'flag', 'PRIORIZED flag missing'
+                if not (p.flags & flags.PRIORIZED) or (int(p.flags) & ~127):
+                    return True, 'flag', 'stage %d: flags %d for an input source with flags %d (PRIORIZED missing or an undocumented bit set)' % (st, p.flags, s.flags)
                 if abs(p.peak_flux / s.peak_flux - 1) > 1e-3 and not small:
                     return True, 'flux', 'stage %d: source at (%.4f, %.4f) peak %.5f comes back as %.5f (%.2f%% off; image is exactly the noise-free model of the catalogue)' % (st, s.ra, s.dec, s.peak_flux, p.peak_flux, 100 * (p.peak_flux / s.peak_flux - 1))
                 if st == 1:
